@@ -443,7 +443,7 @@ func (u *UnitGen) frameObligations(entry, final *State, env *Env) {
 		}
 		pfx := k[:strings.Index(k, ":")+1]
 		switch pfx {
-		case "H:", "C:", "MD:", "MV:", "SD:", "SL:", "G:", "g:":
+		case "H:", "C:", "MD:", "MV:", "SD:", "SL:", "RV:", "G:", "g:":
 		default:
 			continue
 		}
@@ -538,7 +538,7 @@ func (u *UnitGen) frameObligations(entry, final *State, env *Env) {
 }
 
 func frameName(k string) string {
-	return strings.NewReplacer("H:", "", "C:", "cell ", "MD:", "mapdom ", "MV:", "mapval ", "SD:", "sent ", "SL:", "sentlen ", "G:", "ghost ", "g:", "global ").Replace(k)
+	return strings.NewReplacer("H:", "", "C:", "cell ", "MD:", "mapdom ", "MV:", "mapval ", "SD:", "sent ", "SL:", "sentlen ", "RV:", "recvd ", "G:", "ghost ", "g:", "global ").Replace(k)
 }
 
 func (u *UnitGen) lockBalance(entry, final *State, env *Env) {
@@ -605,15 +605,23 @@ func (r *UnitResult) QueryFor(ob *Obligation, withModel bool) string {
 		b.WriteString(l)
 		b.WriteString("\n")
 	}
+	goal0 := ob.Goal
+	if len(ob.Parts) > 0 && ob.FailPart >= 0 && ob.FailPart < len(ob.Parts) {
+		goal0 = ob.Parts[ob.FailPart]
+	}
+	onPath := r.reachCone(goal0.S, ob.Index)
 	for i := 0; i < ob.Index; i++ {
 		e := r.events[i]
 		if ob.ModularFrom > 0 && i >= r.entryEnd && i < ob.ModularFrom && (e.Kind == EvOblig || (e.Kind == EvAssume && !e.Structural)) {
 			continue
 		}
 		if e.Kind == EvOblig {
-			if !e.Ob.Cover && !terminalKind(e.Ob.Kind) {
+			if !e.Ob.Cover && !terminalKind(e.Ob.Kind) && !offPath(e.Ob.Goal.S, onPath) {
 				fmt.Fprintf(&b, "(assert %s) ; assumed after %s\n", e.Ob.Goal.S, e.Ob.Name)
 			}
+			continue
+		}
+		if e.Kind == EvAssume && offPath(e.Term.S, onPath) {
 			continue
 		}
 		b.WriteString(eventText(e))
@@ -639,6 +647,85 @@ func (r *UnitResult) QueryFor(ob *Obligation, withModel bool) string {
 		b.WriteString("(get-model)\n")
 	}
 	return b.String()
+}
+
+// reachCone returns the block-reachability symbols (reach_*) the formula depends on, directly or
+// through the definitions emitted before event index end. After loop cutting the control-flow
+// graph is acyclic and the reachability predicate of a block is defined from those of its
+// predecessors, so the cone of an obligation's goal holds exactly the blocks that can lie on an
+// execution path to it.
+func (r *UnitResult) reachCone(formula string, end int) map[string]bool {
+	if os.Getenv("GOVC_NOPRUNE") != "" {
+		return nil
+	}
+	defs := map[string]string{}
+	for i := 0; i < end && i < len(r.events); i++ {
+		if e := r.events[i]; e.Kind == EvDefine {
+			defs[e.Name] = e.Term.S
+		}
+	}
+	seen := map[string]bool{}
+	cone := map[string]bool{}
+	var visit func(text string)
+	visit = func(text string) {
+		for _, id := range smtIdents(text) {
+			if seen[id] {
+				continue
+			}
+			seen[id] = true
+			if strings.HasPrefix(id, "reach_") {
+				cone[id] = true
+			}
+			if d, ok := defs[id]; ok {
+				visit(d)
+			}
+		}
+	}
+	visit(formula)
+	return cone
+}
+
+// offPath: the assumption has the shape (=> reach_X ...) for a block X that cannot lie on a path
+// to the obligation being checked; it constrains other executions only and is left out of the
+// standalone query (smaller queries, fewer irrelevant quantifier instantiations).
+func offPath(term string, cone map[string]bool) bool {
+	if cone == nil || !strings.HasPrefix(term, "(=> reach_") {
+		return false
+	}
+	rest := term[4:]
+	j := strings.IndexAny(rest, " )")
+	if j < 0 {
+		return false
+	}
+	return !cone[rest[:j]]
+}
+
+func smtIdents(s string) []string {
+	var out []string
+	i := 0
+	for i < len(s) {
+		c := s[i]
+		if c == '(' || c == ')' || c == ' ' || c == '\n' || c == '\t' {
+			i++
+			continue
+		}
+		if c == '|' {
+			j := strings.IndexByte(s[i+1:], '|')
+			if j < 0 {
+				break
+			}
+			out = append(out, s[i:i+j+2])
+			i += j + 2
+			continue
+		}
+		j := i
+		for j < len(s) && s[j] != '(' && s[j] != ')' && s[j] != ' ' && s[j] != '\n' && s[j] != '\t' {
+			j++
+		}
+		out = append(out, s[i:j])
+		i = j
+	}
+	return out
 }
 
 // IncrementalScript checks all obligations of the unit in one solver run.
